@@ -100,7 +100,8 @@ Record Sim (s : state) (m : mstate) : Prop := {
   sim_act : forall id, mem id (m_act m) = bact s id;
   sim_owed : forall id, mem id (m_owed m) = bowed s id;
   sim_run : forall id, mem id (m_run m) = brun s id;
-  sim_exp : forall t, rel_stage (stg s t) (m_exp m t)
+  sim_exp : forall t, rel_stage (stg s t) (m_exp m t);
+  sim_mask : forall t, m_masked m t = masked s t
 }.
 
 (* ---------- plans only name registered interests ---------- *)
@@ -161,7 +162,8 @@ Lemma invP_step : forall s l s', Inv s -> InvP s -> step s l = Some s' -> InvP s
 Proof.
   intros s l s' [HR HL] HP H. destruct l.
   - (* LLock *)
-    simpl in H. destruct (lock s) eqn:Elk; [discriminate|]. destruct (stg s t) eqn:Est; try discriminate; inversion H; subst; clear H.
+    simpl in H. destruct (lock s) eqn:Elk; [discriminate|]. destruct (stg s t) eqn:Est; try discriminate;
+      try (destruct (masked s t); [|discriminate]); inversion H; subst; clear H.
     + apply (invP_mono s); [exact HP|intros; apply find_same; assumption|]. intros u id Hin. simpl in Hin. split; [exact Hin|auto].
     + intros u id Hin. simpl in *. destruct (upd_stage_cases (stg s) t (SProc (wake_plan None sig (regs s))) u) as [[E Eu]|[E Eu]];
         rewrite E in *.
@@ -241,6 +243,8 @@ Proof.
     simpl in H. apply (invP_mono s); [exact HP| |dmatch H; inversion H; subst; simpl; auto].
     intros id' r Hr. dmatch H; inversion H; subst; simpl; apply find_upd_some; auto.
   - (* LBlock *) simpl in H. dmatch H. inversion H; subst. exact HP.
+  - (* LMask *) simpl in H. dmatch H; inversion H; subst; exact HP.
+  - (* LSaMask *) simpl in H. dmatch H. inversion H; subst. exact HP.
 Qed.
 
 (* ---------- reading a boolean attribute of an interest ---------- *)
@@ -267,19 +271,20 @@ Proof. intros g h t x e H1 H2 u. unfold upd. destruct (u =? t); [exact H1|apply 
 
 Lemma sim_stage_only : forall s m t x e, Sim s m -> rel_stage x e -> Sim (with_stg s t x) (m_with_exp m t e).
 Proof.
-  intros s m t x e [S1 S2 S3 S4 S5] Hr. constructor; simpl; auto. apply rel_upd; assumption.
+  intros s m t x e [S1 S2 S3 S4 S5 S6] Hr. constructor; simpl; auto. apply rel_upd; assumption.
 Qed.
 
 Lemma sim_lock_only : forall s m o, Sim s m -> Sim (with_lock s o) m.
-Proof. intros s m o [S1 S2 S3 S4 S5]. constructor; simpl; auto. Qed.
+Proof. intros s m o [S1 S2 S3 S4 S5 S6]. constructor; simpl; auto. Qed.
 
 Lemma sim_step_lock : forall s m t s', Inv s -> Sim s m -> step s (LLock t) = Some s' ->
   exists m', mstep true m (LLock t) = Some m' /\ Sim s' m'.
 Proof.
   intros s m t s' [HR _] HS H. pose proof (sim_exp s m HS t) as He. simpl in H |- *.
-  destruct (lock s); [discriminate|]. destruct (stg s t) eqn:Est; try discriminate; inversion H; subst; clear H; simpl in He; rewrite He.
-  - eexists. split; [reflexivity|]. apply sim_lock_only. exact HS.
-  - eexists. split; [reflexivity|]. apply sim_stage_only; [apply sim_lock_only; exact HS|].
+  destruct (lock s); [discriminate|]. destruct (stg s t) eqn:Est; try discriminate; simpl in He; rewrite He.
+  - rewrite (sim_mask s m HS t). destruct (masked s t); [|discriminate]. inversion H; subst; clear H.
+    eexists. split; [reflexivity|]. apply sim_lock_only. exact HS.
+  - inversion H; subst; clear H. eexists. split; [reflexivity|]. apply sim_stage_only; [apply sim_lock_only; exact HS|].
     simpl. rewrite (sim_regs s m HS), strip_sel_plan, (wake_plan_sel _ _ _ (inv_sorted s HR)). reflexivity.
 Qed.
 
@@ -302,7 +307,7 @@ Lemma sim_step_reg : forall s m t id sig x tt a sa s', Inv s -> Sim s m ->
   step s (LReg t id sig x tt a sa) = Some s' ->
   exists m', mstep true m (LReg t id sig x tt a sa) = Some m' /\ Sim s' m'.
 Proof.
-  intros s m t id sig x tt a sa s' [HR _] HS H. destruct HS as [S1 S2 S3 S4 S5]. simpl in H |- *.
+  intros s m t id sig x tt a sa s' [HR _] HS H. destruct HS as [S1 S2 S3 S4 S5 S6]. simpl in H |- *.
   destruct (holds s t && is_idle (stg s t) && (0 <=? sig) && (sig <? 64)); [|discriminate].
   destruct (find id (regs s)) eqn:Ef; [discriminate|].
   destruct (osb_eqb sa (if total s sig =? 0 then Some true else None)) eqn:Eo; [|discriminate].
@@ -321,6 +326,7 @@ Proof.
   - intro id'. rewrite S4, !brun_eq. simpl. rewrite (bget_insert _ r) by exact Hfr. simpl.
     destruct (id =? id') eqn:E; [|reflexivity]. zb. subst. unfold bget. rewrite Ef. reflexivity.
   - exact S5.
+  - exact S6.
 Qed.
 
 Lemma strip_handoff_plan : forall b r l, handoff_plan b (strip r) (map strip l) = handoff_plan b r l.
@@ -333,7 +339,7 @@ Lemma sim_step_unreg : forall s m t id sa s', Inv s -> Sim s m ->
   step s (LUnreg t id sa) = Some s' ->
   exists m', mstep true m (LUnreg t id sa) = Some m' /\ Sim s' m'.
 Proof.
-  intros s m t id sa s' [HR _] HS H. destruct HS as [S1 S2 S3 S4 S5]. simpl in H |- *.
+  intros s m t id sa s' [HR _] HS H. destruct HS as [S1 S2 S3 S4 S5 S6]. simpl in H |- *.
   destruct (holds s t && is_idle (stg s t)) eqn:E0; [|discriminate]. apply andb_true_iff in E0. destruct E0 as [_ Ei].
   destruct (find id (regs s)) as [r|] eqn:Ef; [|discriminate]. destruct (i_thr r =? t); [|discriminate].
   destruct (osb_eqb sa (if total s (i_sig r) - 1 =? 0 then Some false else None)) eqn:Eo; [|discriminate].
@@ -351,6 +357,7 @@ Proof.
     destruct (negb (total s (i_sig r) - 1 =? 0) && i_excl r && i_active r); [|exact S5].
     apply rel_upd; [|exact S5]. simpl. rewrite strip_handoff_plan.
     rewrite (handoff_wake_plan true r _ (sorted_remove _ _ (inv_sorted s HR))). reflexivity.
+  - exact S6.
 Qed.
 
 Lemma disp_count : forall s sig, InvR s -> disp s sig = negb (count_sig sig (map strip (regs s)) =? 0).
@@ -388,8 +395,8 @@ Lemma sim_post : forall s m id t x e, Sim s m -> rel_stage x e -> G2 (regs s) ->
   (exists r, find id (regs s) = Some r) ->
   Sim (with_stg (do_post s id) t x) (m_with_exp (m_post m id) t e).
 Proof.
-  intros s m id t x e [S1 S2 S3 S4 S5] Hr HG [r Hf].
-  constructor; cbn [m_regs m_act m_owed m_run m_exp m_with_exp m_post regs stg with_stg do_post with_regs].
+  intros s m id t x e [S1 S2 S3 S4 S5 S6] Hr HG [r Hf].
+  constructor; cbn [m_regs m_act m_owed m_run m_exp m_masked m_with_exp m_post regs stg masked with_stg do_post with_regs].
   - rewrite strip_upd_rec by auto. exact S1.
   - intro id'. rewrite mem_cons, mem_del, S2, !bact_eq. simpl. rewrite bget_upd by auto.
     destruct (id' =? id) eqn:E; simpl; [|apply andb_true_r]. zb. subst. unfold bget. rewrite Hf. reflexivity.
@@ -399,6 +406,7 @@ Proof.
   - intro id'. rewrite S4, !brun_eq. simpl. rewrite bget_upd by auto.
     destruct (id' =? id); [|reflexivity]. unfold bget. destruct (find id' (regs s)); reflexivity.
   - apply rel_upd; assumption.
+  - exact S6.
 Qed.
 
 Lemma sim_step_post : forall s m t id s', Inv s -> InvP s -> Sim s m -> step s (LPost t id) = Some s' ->
@@ -422,16 +430,16 @@ Proof.
   - destruct He as [He|He]; rewrite He.
     + eexists. split; [reflexivity|]. apply sim_stage_only; [exact HS|reflexivity].
     + eexists. split; [reflexivity|].
-      destruct HS as [S1 S2 S3 S4 S5]. constructor; simpl; auto.
+      destruct HS as [S1 S2 S3 S4 S5 S6]. constructor; simpl; auto.
       intro u. unfold upd. destruct (u =? t) eqn:E; [|apply S5]. zb. subst. simpl. exact He.
 Qed.
 
-Ltac sim_fields := cbn [m_regs m_act m_owed m_run m_exp regs stg with_regs].
+Ltac sim_fields := cbn [m_regs m_act m_owed m_run m_exp m_masked regs stg masked with_regs].
 
 Lemma sim_step_read : forall s m t id s', Sim s m -> step s (LRead t id) = Some s' ->
   exists m', mstep true m (LRead t id) = Some m' /\ Sim s' m'.
 Proof.
-  intros s m t id s' HS H. destruct HS as [S1 S2 S3 S4 S5]. simpl in H |- *.
+  intros s m t id s' HS H. destruct HS as [S1 S2 S3 S4 S5 S6]. simpl in H |- *.
   destruct (find id (regs s)) as [r|] eqn:Ef; [|discriminate].
   destruct ((i_thr r =? t) && is_idle (stg s t) && phase_eqb (i_phase r) PIdle); [|discriminate].
   assert (Ho : mem id (m_owed m) = (0 <? i_cnt r)) by (rewrite S3; unfold bowed; rewrite Ef; reflexivity).
@@ -445,13 +453,14 @@ Proof.
     + intro id'. rewrite mem_cons, S4, !brun_eq. sim_fields. rewrite bget_upd by auto.
       destruct (id' =? id) eqn:E; simpl; [|reflexivity]. zb. subst. unfold bget. rewrite Ef. reflexivity.
     + exact S5.
+    + exact S6.
   - eexists. split; [reflexivity|]. constructor; assumption.
 Qed.
 
 Lemma sim_step_clear : forall s m t id s', Sim s m -> step s (LClear t id) = Some s' ->
   exists m', mstep true m (LClear t id) = Some m' /\ Sim s' m'.
 Proof.
-  intros s m t id s' HS H. destruct HS as [S1 S2 S3 S4 S5]. simpl in H |- *.
+  intros s m t id s' HS H. destruct HS as [S1 S2 S3 S4 S5 S6]. simpl in H |- *.
   destruct (find id (regs s)) as [r|] eqn:Ef; [|discriminate].
   destruct ((i_thr r =? t) && phase_eqb (i_phase r) POwed && (i_tt r || holds s t)) eqn:Ec; [|discriminate].
   apply andb_true_iff in Ec. destruct Ec as [Ec _]. apply andb_true_iff in Ec. destruct Ec as [_ Ep].
@@ -465,12 +474,13 @@ Proof.
     destruct (id' =? id) eqn:E; [|reflexivity]. zb. subst. unfold bget. rewrite Ef. simpl.
     destruct (i_phase r); try discriminate. reflexivity.
   - exact S5.
+  - exact S6.
 Qed.
 
 Lemma sim_step_handler : forall s m t id s', Sim s m -> step s (LHandler t id) = Some s' ->
   exists m', mstep true m (LHandler t id) = Some m' /\ Sim s' m'.
 Proof.
-  intros s m t id s' HS H. destruct HS as [S1 S2 S3 S4 S5]. simpl in H |- *.
+  intros s m t id s' HS H. destruct HS as [S1 S2 S3 S4 S5 S6]. simpl in H |- *.
   destruct (find id (regs s)) as [r|] eqn:Ef; [|discriminate].
   destruct ((i_thr r =? t) && phase_eqb (i_phase r) PCleared) eqn:Ec; [|discriminate].
   apply andb_true_iff in Ec. destruct Ec as [_ Ep].
@@ -485,6 +495,7 @@ Proof.
   - intro id'. rewrite mem_del, S4, !brun_eq. sim_fields. rewrite bget_upd by auto.
     destruct (id' =? id); simpl; [|apply andb_true_r]. rewrite andb_false_r. unfold bget. destruct (find id' (regs s)); reflexivity.
   - exact S5.
+  - exact S6.
 Qed.
 
 Lemma sim_step_block : forall s m t s', Inv s -> Sim s m -> step s (LBlock t) = Some s' ->
@@ -519,6 +530,10 @@ Proof.
   - eapply sim_step_clear; eauto.
   - eapply sim_step_handler; eauto.
   - eapply sim_step_block; eauto.
+  - (* LMask *) simpl in H |- *. destruct (all || negb (holds s t && needs_mask (stg s t))); [|discriminate].
+    inversion H; subst; clear H. eexists. split; [reflexivity|]. destruct HS as [S1 S2 S3 S4 S5 S6]. constructor; simpl; auto.
+    intro u. unfold upd. destruct (u =? t); [reflexivity|apply S6].
+  - (* LSaMask *) simpl in H |- *. destruct full; [|discriminate]. inversion H; subst. eexists. split; [reflexivity|exact HS].
 Qed.
 
 Lemma sim_init : Sim init minit.
